@@ -35,7 +35,6 @@ func ZZ_C13_serial() {
 	}
 	// expected order of top-level response keys
 	want, _ := zzRefExecute(w, doc, "", vars)
-	_ = want
 	ref := &zzRef{w: w, vars: vars}
 	ref.frags = nil
 	var order []string // top-level keys in document (collection) order
@@ -73,6 +72,9 @@ func ZZ_C13_serial() {
 	r := Do(Params{Schema: schema, RequestString: text, VariableValues: vars})
 	zzMapOrder(false, 0)
 	zzAssert(len(r.Errors) == 0, "unexpected errors")
+	// every deferred value, at whatever depth, has been forced: the response is
+	// the plain data tree
+	zzAssert(zzDeepEqual(r.Data, want), "mutation response differs from the execution algorithm's (a deferred value was left unforced?)")
 	// Document positions of every occurrence of each top-level key (skipped
 	// occurrences included, fragments expanded in place). Key A must finish
 	// before key B starts when all of A's occurrences precede all of B's; keys
